@@ -125,13 +125,18 @@ package fastaio
 //@     invariant hdrs >= 0 && first == (hdrs == 0) && counter == ite(hdrs == 0, 0, hdrs - 1) && len(sent(chnl)) == counter
 //@     invariant len(seqBuffer) == gLen && implies(counter > 0, width == gWidth) && implies(hdrs == 0, gLen == 0)
 //@     invariant forall(j, 0, len(seqBuffer), isCode(seqBuffer[j]))
+//@     invariant [gapmode.buffer] forall(j, 0, len(seqBuffer), modeOK(seqBuffer[j], hardGaps))
 //@     invariant forall(t, 0, counter, sent(chnl)[t].Idx == t && len(sent(chnl)[t].Seq) == gWidth)
 //@   loop 2:
 //@     invariant len(sent(cErr)) == 0 && len(sent(cDone)) == 0 && len(sent(chnl)) == counter
 //@     invariant len(seqBuffer) + i == gLen && len(encodedLine) == len(line)
 //@     invariant forall(j, 0, i, isCode(encodedLine[j]) && encodedLine[j] == coding[line[j]])
+//@     invariant [gapmode.line] forall(j, 0, i, modeOK(encodedLine[j], hardGaps))
 //@     do-end gLen++
 //@   after call:Bytes#1: do if len(line) > 0 && line[0] == '>' { hdrs++ }
+//@   # C03: every record sent is encoded with the table the hardGaps argument selects
+//@   before send#4: assert [record.gapmode] forall(j, 0, len(fr.Seq), modeOK(fr.Seq[j], hardGaps))
+//@   before send#8: assert [lastrecord.gapmode] forall(j, 0, len(fr.Seq), modeOK(fr.Seq[j], hardGaps))
 //@   before send#4: assert [record] fr.Idx == hdrs - 2 && len(fr.Seq) == gLen && forall(j, 0, len(fr.Seq), isCode(fr.Seq[j]))
 //@   after send#4: do if hdrs == 2 { gWidth = gLen }; gLen = 0
 //@   before send#8: assert [lastrecord.idx] fr.Idx == hdrs - 1
